@@ -91,8 +91,11 @@ fn seam_selfcheck() -> Result<(), String> {
     if res.getrandom_calls != 1 {
         return Err(format!("expected exactly 1 getrandom call for the thread's RandomState, saw {}", res.getrandom_calls));
     }
-    if res.delivered() != vec![b"first\n".to_vec(), b"second line\nthird\n".to_vec()] {
-        return Err(format!("std reads through the seam returned {:?}", res.delivered()));
+    if res.delivered() != vec![b"first\n".to_vec(), b"second line\nthird\n".to_vec(), b"slept 1".to_vec()] {
+        return Err(format!("std reads / clock through the seam returned {:?}", res.delivered().iter().map(|d| String::from_utf8_lossy(d).into_owned()).collect::<Vec<_>>()));
+    }
+    if res.sleeps != 1 {
+        return Err(format!("thread::sleep did not go through the clock seam ({} virtual sleeps)", res.sleeps));
     }
     if res.stdout != b"probe\n" {
         return Err(format!("stdout capture saw {:?}", String::from_utf8_lossy(&res.stdout)));
@@ -128,6 +131,7 @@ fn worker_main(args: &[String]) -> i32 {
     let mut cases = 0u64;
     let mut execs = 0u64;
     let mut events = 0u64;
+    let mut sim_ns = 0u64;
     let mut invalid = 0u64;
     let mut invalid_sample: Option<String> = None;
     let mut invalid_reasons: BTreeMap<String, u64> = BTreeMap::new();
@@ -149,6 +153,7 @@ fn worker_main(args: &[String]) -> i32 {
         cases += 1;
         execs += outcome.execs;
         events += outcome.events;
+        sim_ns += outcome.sim_ns;
         for (k, v) in &outcome.faults {
             *faults.entry(k.clone()).or_insert(0) += v;
         }
@@ -198,6 +203,7 @@ fn worker_main(args: &[String]) -> i32 {
         "cases": cases,
         "execs": execs,
         "events": events,
+        "sim_ns": sim_ns,
         "invalid": invalid,
         "invalid_sample": invalid_sample,
         "invalid_reasons": invalid_reasons,
@@ -369,6 +375,7 @@ fn run_main(args: &[String]) -> i32 {
     let mut cases = 0u64;
     let mut execs = 0u64;
     let mut events = 0u64;
+    let mut sim_ns = 0u64;
     let mut invalid = 0u64;
     let mut invalid_sample = J::Null;
     let mut invalid_reasons: BTreeMap<String, u64> = BTreeMap::new();
@@ -394,6 +401,7 @@ fn run_main(args: &[String]) -> i32 {
         cases += data["cases"].as_u64().unwrap_or(0);
         execs += data["execs"].as_u64().unwrap_or(0);
         events += data["events"].as_u64().unwrap_or(0);
+        sim_ns += data["sim_ns"].as_u64().unwrap_or(0);
         invalid += data["invalid"].as_u64().unwrap_or(0);
         if invalid_sample.is_null() && !data["invalid_sample"].is_null() {
             invalid_sample = data["invalid_sample"].clone();
@@ -521,7 +529,8 @@ fn run_main(args: &[String]) -> i32 {
             "samples": samples,
             "worlds_executed": execs,
             "seam_events_covered": events,
-            "simulated_time": "the system under simulation has no timer, sleep or deadline; simulated time is the seam event sequence number (seam_events_covered)",
+            "simulated_time_s": sim_ns as f64 / 1e9,
+            "simulated_time": "virtual clock behind clock_gettime/nanosleep: every seam event costs 10 us, an EOF poll additionally the case's poll cost (0 .. 60 s), sleeps advance it by their duration; the unmodified sqlgrep has no timer, sleep or deadline, so for it simulated time only orders events",
             "cases_per_hour": if sim_wall > 0.0 { (cases as f64 / sim_wall * 3600.0) as u64 } else { 0 },
             "worlds_per_hour": if sim_wall > 0.0 { (execs as f64 / sim_wall * 3600.0) as u64 } else { 0 },
             "workers": workers,
